@@ -102,6 +102,18 @@ func main() {
 				dumpFn(w, fn)
 			}
 		}
+	case "paths":
+		if len(args) < 2 {
+			usage()
+		}
+		w := mustLoad(repo)
+		re := regexp.MustCompile(args[1])
+		for _, fn := range w.Fns {
+			if re.MatchString(core.FnName(fn)) {
+				fmt.Println("===", core.FnName(fn))
+				w.PrintPaths(fn)
+			}
+		}
 	case "sites":
 		if len(args) < 2 {
 			usage()
